@@ -24,8 +24,11 @@ def _one(task):
         from elab.equiv import PassEquiv, structural_info
         from elab.n2smt import Malformed
         A = designs.build(design)
-        for pre in design.get('pre', []):
-            A, _ = passes.get(pre)(A)
+        try:
+            for pre in design.get('pre', []):
+                A, _ = passes.get(pre)(A)
+        except passes.MapError as e:
+            return dict(task=task, status='maperror', why='in the preparatory pass: %s' % e)
         nets_before = len(A.logic)
         try:
             pe = PassEquiv(A, k=k)
